@@ -256,6 +256,39 @@ Definition allow_f := allow_direct.
 Definition join_alts (l : list (list string)) : string := join ";" (List.map (join "/") l).
 Definition show_ids (l : list nat) : string := join "," (List.map show_nat l).
 
+(* the only ways a call may fail: no compatible overload or a wrong number of arguments (dispatch_error, bad_boxed_cast, arity_error,
+   guard_error; eval_error when a script makes the call), a null object where an object is required (std::runtime_error), or the
+   entered body's own exception (the catalogue's throwing body throws std::runtime_error); boxed_cast fails with bad_boxed_cast
+   (or the null-object error). Internal exceptions such as detail::exception::bad_any_cast must not escape. *)
+Definition call_errors : list string := ["dispatch_error"; "bad_boxed_cast"; "arity_error"; "guard_error"; "eval_error"; "std:runtime_error"].
+Definition cast_errors : list string := ["bad_boxed_cast"; "std:runtime_error"].
+
+(* among the C++ overloads that match the arguments exactly, the one whose parameters are "less const" goes first
+   (function_less_than: for the same type the non-const parameter sorts before the const one) *)
+Fixpoint vec_ltb (a b : list bool) : bool :=
+  match a, b with
+  | x :: a', y :: b' => if Bool.eqb x y then vec_ltb a' b' else negb x
+  | _, _ => false
+  end.
+Definition const_vec (f : func) : list bool := List.map (fun p => ti_const (p_ti p)) (f_params f).
+Definition bare_vec (f : func) : list tyid := List.map p_bare (f_params f).
+Fixpoint tys_eqb (a b : list tyid) : bool :=
+  match a, b with
+  | [], [] => true
+  | x :: a', y :: b' => Nat.eqb x y && tys_eqb a' b'
+  | _, _ => false
+  end.
+(* the rule is only claimed for overload sets whose members all have the same parameter types up to const and form:
+   across different types function_less_than orders by std::type_info::before of the full types, which is not a
+   strict weak order together with the const rule (e.g. pointer-to-const-int < std::function < int < pointer-to-const-int) *)
+Definition preferred (E : env) (fs : list func) (args : list box) : list func :=
+  let ex := List.filter (fun f => match f_kind f with KNative => exact_overload E f args | _ => false end) fs in
+  let uniform := match fs with
+                 | [] => true
+                 | f0 :: _ => forallb (fun f => match f_kind f with KNative => tys_eqb (bare_vec f) (bare_vec f0) | _ => false end) fs
+                 end in
+  if uniform then List.filter (fun f => negb (existsb (fun g => vec_ltb (const_vec g) (const_vec f)) ex)) ex else ex.
+
 Definition spec_d (c : dcase) : string :=
   let E := mk_env (dc_convs c) (dc_funcs c) (dc_rtl c) in
   let fs := List.map cf_f (dc_funcs c) in
@@ -264,6 +297,7 @@ Definition spec_d (c : dcase) : string :=
   let arity_ok := existsb (fun f => (f_arity f <? 0)%Z || (f_arity f =? n)%Z) fs in
   let exact := List.map f_id (List.filter (fun f => exact_overload E f args) fs) in
   "ARITY " ++ (if arity_ok then "1" else "0") ++ " | EXACT " ++ show_ids exact
+  ++ " | PREF " ++ show_ids (List.map f_id (preferred E fs args)) ++ " | ERRS " ++ join "," call_errors
   ++ fold_right (fun f acc =>
        if (f_arity f <? 0)%Z || (f_arity f =? n)%Z then
          match allow_f E f args with
@@ -283,7 +317,7 @@ Definition spec_line (line : string) : string :=
                | None => "BADCASE"
                | Some (rtl, wc, cs, p, a) =>
                    let E := mk_env cs [] rtl in
-                   if String.eqb kind "C" then "ALLOW " ++ join "/" (allowed E p a)
+                   if String.eqb kind "C" then "ALLOW " ++ join "/" (allowed E p a) ++ " | ERRS " ++ join "," cast_errors
                    else (* R: the value a script function returned, handed to C++ as Ret *)
                      if ti_arith (p_ti p) then
                        (if b_arith a && negb (b_undef a) && negb (b_null a)
